@@ -264,8 +264,9 @@ def run(run):
         clauses = sorted(set(int(x) for x in re.findall(r"\d+", m.group(1)))) if m else []
         names = ",".join(CLAUSES.get(c, str(c)) for c in clauses)
         extra = ":placeholder-in-input" if has_magic else (":heading-line-with-pre" if "level" in names and "<pre" in texts[i].lower() else "")
-        if not extra and "level" in names and (re.search(r"^=+[^\n]*=[ \t]+=+[ \t]*$", texts[i], flags=re.M)
-                                               or re.search(r"^=+[ \t]+=[^\n]*=[ \t]*$", texts[i], flags=re.M)):
+        if not extra and "level" in names and (re.search(r"^=+[^\n]*=[^\S\n]+=+[^\S\n]*$", texts[i], flags=re.M)
+                                               or re.search(r"^=+[^\S\n]+=[^\n]*=[^\S\n]*$", texts[i], flags=re.M)):
+            # (any blank that is not a line break: the tokenizer's \s takes U+0085, U+00A0, U+2003 ... as well)
             extra = ":heading-closing-equals-separated-by-blank"
         if not extra and "level" in names and any(
                 ln.lstrip().startswith("=") and (ln.count("{{") > ln.count("}}") or ln.count("[[") > ln.count("]]"))
